@@ -76,6 +76,7 @@ func C15(t Tier) int {
 	for _, bn := range sortedKeys(bases) {
 		w := bases[bn]()
 		base := dumpCustom(w)
+		baseAnswers := customAnswers(e, w)
 		var seq func(cur []int)
 		seq = func(cur []int) {
 			if len(cur) > 0 {
@@ -173,6 +174,11 @@ func C15(t Tier) int {
 							if diff := sameCustom(base, after); diff != "" {
 								run.Add(report.Viol{Kind: "partial-effect", Sig: "partial-effect:" + sigBase, Msg: fmt.Sprintf("%s: the transaction failed (code %d) but custom state changed: %s", label, res.Code, diff), Replay: map[string]any{"case": label}})
 							}
+							// ... and no effect as seen through the modules' own read paths either (a keeper that answers from
+							// memory it filled during the failed transaction would show here, not in the raw store)
+							if q := customAnswers(e, w); q != baseAnswers {
+								run.Add(report.Viol{Kind: "partial-effect-visible", Sig: "partial-effect-visible:" + sigBase, Msg: fmt.Sprintf("%s: the transaction failed (code %d) but the custom modules' query answers changed: %s", label, res.Code, firstDiffLine(baseAnswers, q)), Replay: map[string]any{"case": label}})
+							}
 						}
 						if !supBefore.IsEqual(supAfter) {
 							run.Add(report.Viol{Kind: "supply-changed", Sig: "supply-changed:" + sigBase, Msg: fmt.Sprintf("%s: total supply %s -> %s", label, supBefore, supAfter), Replay: map[string]any{"case": label}})
@@ -239,4 +245,37 @@ func C15(t Tier) int {
 	run.Coverage["outcomes"] = oc
 	run.Assumptions = []string{"explicit AuthInfo.Fee.payer/granter overrides are left out (the statement defines the payer as the first signer)", "zero minimum gas prices (node-local setting)"}
 	return run.Finish()
+}
+
+// customAnswers renders the custom modules' own read paths (keeper query servers on the working state).
+func customAnswers(e *domEnv, w *world.World) string {
+	ctx := sdk.WrapSDKContext(w.Ctx())
+	var b strings.Builder
+	t, err := w.App.AolKeeper.Topic(ctx, &aoltypes.QueryTopicRequest{OwnerAddress: e.A.Bech, TopicName: "a"})
+	fmt.Fprintf(&b, "Topic(A,a)=%v %v\n", t, err)
+	ts, err := w.App.AolKeeper.Topics(ctx, &aoltypes.QueryTopicsRequest{OwnerAddress: e.A.Bech})
+	fmt.Fprintf(&b, "Topics(A)=%v %v\n", ts, err)
+	ws, err := w.App.AolKeeper.Writers(ctx, &aoltypes.QueryWritersRequest{OwnerAddress: e.A.Bech, TopicName: "a"})
+	fmt.Fprintf(&b, "Writers(A,a)=%v %v\n", ws, err)
+	for off := uint64(0); off < 3; off++ {
+		r, err := w.App.AolKeeper.Record(ctx, &aoltypes.QueryRecordRequest{OwnerAddress: e.A.Bech, TopicName: "a", Offset: off})
+		fmt.Fprintf(&b, "Record(A,a,%d)=%v %v\n", off, r, err)
+	}
+	d := w.App.DidKeeper.GetDIDDocument(w.Ctx(), e.Did)
+	fmt.Fprintf(&b, "DID(d1)=%d %v\n", d.Sequence, d.Document)
+	dn, err := w.App.PnftKeeper.Denoms(ctx, &pnfttypes.QueryDenomsRequest{})
+	fmt.Fprintf(&b, "Denoms=%v %v\n", dn, err)
+	ps, err := w.App.PnftKeeper.PNFTs(ctx, &pnfttypes.QueryPNFTsRequest{DenomId: "d"})
+	fmt.Fprintf(&b, "PNFTs(d)=%v %v\n", ps, err)
+	return b.String()
+}
+
+func firstDiffLine(a, b string) string {
+	al, bl := strings.Split(a, "\n"), strings.Split(b, "\n")
+	for i := range al {
+		if i < len(bl) && al[i] != bl[i] {
+			return fmt.Sprintf("before: %s | after: %s", firstN(al[i], 300), firstN(bl[i], 300))
+		}
+	}
+	return "(different lengths)"
 }
